@@ -109,6 +109,19 @@ func registerIntrinsics(pkg string) {
 			fr.i.px.vassert(fr.i.px.boolTerm(a[0]), a[1].(string), fr.caller)
 			return nil
 		})
+		reg("vCheck", func(fr *frame, a []value) value {
+			// like vAssert, but a concrete failure does not end the path
+			px := fr.i.px
+			c := px.boolTerm(a[0])
+			if c.op == OpBoolConst {
+				if c.cval == 0 && !px.replaying() {
+					px.violation("assert", concStr(fr, a[1]), "check failed (concrete on this path)", fr.caller, nil)
+				}
+				return nil
+			}
+			px.vassert(c, concStr(fr, a[1]), fr.caller)
+			return nil
+		})
 		reg("vFail", func(fr *frame, a []value) value {
 			px := fr.i.px
 			px.violation("assert", concStr(fr, a[0]), "vFail reached", fr.caller, nil)
@@ -164,6 +177,29 @@ func registerIntrinsics(pkg string) {
 				return fr.i.px.jsonSentinel(s.t)
 			}
 			return strconv.FormatInt(a[0].(int64), 10)
+		})
+		reg("vFootprintBegin", func(fr *frame, a []value) value {
+			fr.i.markShared()
+			fr.i.px.sharedWrites = nil
+			fr.i.px.sharedWriteNames = nil
+			return nil
+		})
+		reg("vSharedWrites", func(fr *frame, a []value) value {
+			return len(fr.i.px.sharedWrites)
+		})
+		reg("vSharedWriteNames", func(fr *frame, a []value) value {
+			var names []string
+			for n := range fr.i.px.sharedWriteNames {
+				names = append(names, n)
+			}
+			sort.Strings(names)
+			if len(fr.i.px.sharedWrites) > 0 {
+				fr.i.px.note("shared-writes", strings.Join(fr.i.px.sharedWrites, "; "))
+			}
+			return strings.Join(names, ",")
+		})
+		reg("vConcurrently", func(fr *frame, a []value) value {
+			return call(fr.i, fr, token.NoPos, a[0], nil)
 		})
 		reg("vSymbolic", func(fr *frame, a []value) value { return true })
 		reg("vDrawCount", func(fr *frame, a []value) value {
